@@ -437,3 +437,10 @@ def run(ctx, R):
                 okc, 'HTTPConflict(comment=errors.CONCURRENT_UPDATE)', why,
                 func=hf, node=h)
     R.count("R5.3", n3, 16)
+    from psa.rules import genstate
+    n4 = genstate.generation_writers(ctx, R, 'R5.4')
+    genstate.reshape_identity(ctx, R, 'R5.4')
+    R.count('R5.4', n4, 6)
+    from psa import sqlshape
+    n5 = sqlshape.shape_rule(ctx, R, 'R5.5', [RP_INCR])
+    R.count('R5.5', n5, 1)
